@@ -344,9 +344,17 @@ fn random_scenario(g: &mut GRng, id: u64, seed: u64, max_packets: usize, no_mach
                 return vec![];
             }
             if g.gen_range(0..3) == 0 {
-                return blocking_mix(g);
+                let mut v = blocking_mix(g);
+                // now and then next to further machines
+                if g.gen_range(0..3) == 0 {
+                    let m = sim_machine(g);
+                    if m.to_machine().is_ok() {
+                        v.insert(g.gen_range(0..=v.len()), m);
+                    }
+                }
+                return v;
             }
-            let n = *[0usize, 1, 1, 2].get(g.gen_range(0..4)).unwrap();
+            let n = *[0usize, 1, 1, 2, 2, 3, 5].get(g.gen_range(0..7)).unwrap();
             let mut v = Vec::new();
             while v.len() < n {
                 let m = sim_machine(g);
@@ -472,6 +480,51 @@ fn directed(seed: u64) -> Vec<Scenario> {
             }
         }
     }
+    // small-domain coincidences: two blocking machines and a bypass padding with every timeout and
+    // duration in 0..3 us, so that expiries coincide exactly, periods abut, and the padding falls
+    // before, on and after each boundary
+    for b1 in bools {
+        for b2 in bools {
+            for r2 in bools {
+                for pr in bools {
+                    for d1 in [2i64, 3] {
+                        for t2 in [0i64, 1, 2] {
+                            for d2 in [0i64, 1, 2, 3] {
+                                for pt in [0i64, 1, 2, 3] {
+                                    let client = (d1 + t2 + d2 + pt) % 2 == 0;
+                                    let ms = vec![
+                                        one_shot(mk_block(b1, false, 0, d1), &["NormalSent"], false),
+                                        one_shot(mk_block(b2, r2, t2, d2), &["NormalSent"], false),
+                                        one_shot(mk_pad(true, pr, pt), &["NormalSent"], false),
+                                    ];
+                                    push(ms, &[0], client, true, 5);
+                                }
+                            }
+                        }
+                    }
+                }
+            }
+        }
+    }
+    // the same with wider gaps and equal expiries (t1 + d1 = t2 + d2)
+    for b1 in bools {
+        for b2 in bools {
+            for r2 in bools {
+                for (t1, d1, t2, d2) in [(0i64, 100i64, 40i64, 60i64), (10, 200, 20, 190), (0, 100, 100, 0), (0, 60, 40, 20)] {
+                    for pt in [30i64, 60, 100, 101] {
+                        for client in bools {
+                            let ms = vec![
+                                one_shot(mk_block(b1, false, t1, d1), &["NormalSent"], false),
+                                one_shot(mk_block(b2, r2, t2, d2), &["NormalSent"], false),
+                                one_shot(mk_pad(true, false, pt), &["NormalSent"], false),
+                            ];
+                            push(ms, &[0], client, true, 1000);
+                        }
+                    }
+                }
+            }
+        }
+    }
     // timer machines whose expiries coincide, restart, or are cancelled
     for r1 in bools {
         for r2 in bools {
@@ -529,6 +582,74 @@ fn directed(seed: u64) -> Vec<Scenario> {
         }
     }
     v
+}
+
+/// bursts far beyond any small fixed-size count (2^15, 2^16): n packets at one instant, no
+/// machines; the returned traces are recorded run-length encoded (`outrle` lines)
+fn burst_lines(id: u64, n: usize, delay_us: u64, tail: bool) -> Vec<Value> {
+    let mut runs: Vec<(i64, bool, usize)> = vec![(0, true, n)];
+    if tail {
+        runs.push((0, false, n / 2 + 1));
+        runs.push((7, true, 3));
+        runs.push((2_000_000, false, 2));
+    }
+    let mut trace: Vec<(i64, bool)> = Vec::new();
+    for (t, s, k) in &runs {
+        for _ in 0..*k {
+            trace.push((*t + if *s { 0 } else { delay_us as i64 }, *s));
+        }
+    }
+    trace.sort_by_key(|x| x.0);
+    let start = trace.iter().map(|(t, s)| if *s { *t } else { *t - delay_us as i64 }).min().unwrap();
+    let mut lines = vec![
+        json!({"k": "reset", "id": id}),
+        json!({"k": "sim", "delay": delay_us, "pps": -1,
+               "trace": runs.iter().map(|(t, s, k)| json!({"t": t + if *s { 0 } else { delay_us as i64 }, "s": s, "n": k})).collect::<Vec<_>>(),
+               "nc": 0, "ns": 0, "mc": [], "ms": [], "cont": false, "max_it": 0, "seed": 1, "start": start}),
+    ];
+    // distinct events with their multiplicities, in order of first appearance
+    let rle = |o: &[SimEvent], clock: &Clock| -> Vec<Value> {
+        let mut idx: std::collections::HashMap<String, usize> = std::collections::HashMap::new();
+        let mut out: Vec<(Value, u64)> = Vec::new();
+        for e in o {
+            let v = out_event(e, clock);
+            let key = v.to_string();
+            match idx.get(&key) {
+                Some(i) => out[*i].1 += 1,
+                None => {
+                    idx.insert(key, out.len());
+                    out.push((v, 1));
+                }
+            }
+        }
+        out.into_iter().map(|(mut v, k)| { v["n"] = json!(k); v }).collect()
+    };
+    for (api, ona, oc) in [("advanced", false, false), ("advanced", true, true), ("simple", false, false), ("simple", true, false)] {
+        let network = Network::new(Duration::from_micros(delay_us), None);
+        let mut sq = parse_trace(&trace_string(&trace), network);
+        let clock = Clock { base: sq.get_first_time().unwrap(), offset_us: start, subus: std::cell::Cell::new(false) };
+        let r = verif_harness::watchdog::run(move || {
+            let r = catch_unwind(AssertUnwindSafe(|| {
+                if api == "simple" {
+                    sim(&[], &[], &mut sq, network.delay, 0, ona)
+                } else {
+                    let mut a = SimulatorArgs::new(network, 0, ona);
+                    a.only_client_events = oc;
+                    a.insecure_rng_seed = Some(1);
+                    sim_advanced(&[], &[], &mut sq, &a)
+                }
+            }));
+            r.map_err(panic_msg)
+        }, Duration::from_secs(120), Duration::from_secs(1200));
+        match r {
+            verif_harness::watchdog::Outcome::Done(Ok(o)) => lines.push(json!({"k": "outrle", "api": api, "ona": ona, "oc": oc, "total": o.len(), "runs": rle(&o, &clock),
+                                                                         "sorted": o.windows(2).all(|w| w[0].time <= w[1].time)})),
+            verif_harness::watchdog::Outcome::Done(Err(p)) => lines.push(json!({"k": "panic", "msg": p})),
+            verif_harness::watchdog::Outcome::Hang => lines.push(json!({"k": "panic", "msg": "HANG: simulation of a burst did not return within 120 s of CPU time"})),
+            verif_harness::watchdog::Outcome::Starved => std::process::exit(2),
+        }
+    }
+    lines
 }
 
 fn main() {
@@ -719,6 +840,19 @@ fn main() {
         }
         n_written += 1;
     }
+    // --burst N: machine-less bursts of N (and a few more sizes) packets at one instant
+    let mut n_burst = 0u64;
+    if let Some(nb) = arg(&args, "--burst").and_then(|s| s.parse::<usize>().ok()) {
+        let mut id = 10_000_000u64;
+        for (n, delay, tail) in [(nb, 0u64, false), (nb, 10, true), (nb / 2 + 1, 1000, true), (40, 10, true)] {
+            for l in burst_lines(id, n, delay, tail) {
+                writeln!(f, "{}", l).unwrap();
+            }
+            id += 1;
+            n_burst += 1;
+            n_written += 1;
+        }
+    }
     f.flush().unwrap();
     if let Some(fwf) = fw_out.as_mut() {
         fwf.flush().unwrap();
@@ -729,7 +863,7 @@ fn main() {
     println!(
         "{}",
         json!({"scenarios": scenarios, "written": n_written, "events": n_ev, "actions": n_act,
-               "panics": n_panic, "sub_microsecond_skipped": n_subus, "directed": n_directed, "hangs": n_hang, "framework_traces": n_fw, "mechanism_traces": n_mech})
+               "panics": n_panic, "sub_microsecond_skipped": n_subus, "directed": n_directed, "hangs": n_hang, "framework_traces": n_fw, "mechanism_traces": n_mech, "bursts": n_burst})
     );
     // threads stuck in a simulation are abandoned
     std::process::exit(0);
